@@ -109,8 +109,8 @@ def obligations(ctx):
                 leaves = [Leaf('i64', 'x%d' % i) for i in range(n)]
                 bound = z3.And([z3.And(l.var > -(1 << bits), l.var < (1 << bits)) for l in leaves])
                 ob = EvalArm('C11', 'i64', k, (k, list(leaves)), lambda v, k=k, bits=bits: gcd_ref(k, v, bits), oc=oc, assume=bound, label='i64/%s/%d/%s' % (k, n, tag),
-                             limits={'steps': 4000, 'timeout_ms': 60000 if ((1 << (bits + 1)) - 1) ** n > 5000 else 15000})
-                if ((1 << (bits + 1)) - 1) ** n <= 5000:
+                             limits={'steps': 4000, 'timeout_ms': 60000})
+                if k == 'Lcm' and n > 1 and ((1 << (bits + 1)) - 1) ** n <= 20000:
                     ob.small_domain = [(l.var, -(1 << bits) + 1, (1 << bits) - 1) for l in leaves]      # fallback when the query over the whole box is not decided
                 obs.append(ob)
     return obs
